@@ -90,7 +90,7 @@ def rule_R7(ctx, f):
         if nb:
             ctx.saw(nb)
             r = nb.term_local(0)
-            ok = r[0] == "agg" and len(r[3]) == 1 and is_call(r[3][0], "new") and peel(r[3][0][2][0], transparent=["f64_to_u64"]) == ("param", 1)
+            ok = r[0] == "agg" and len(r[3]) == 1 and is_call(r[3][0], "new") and peel(r[3][0][2][0], transparent=["f64_to_u64", "f64::to_bits"]) == ("param", 1)
             ctx.ob(rid, cell + "::new", ok, "%s::new must store its argument in the cell (found %s)" % (cell, show(r)), site=nb.raw["span"]["at"])
 
 
